@@ -28,6 +28,9 @@ enum Op {
     Limit(usize),
     Markers(&'static str, &'static str),
     Search(String),
+    /// Activity on ANOTHER store living on the same thread (other language, other records): an add
+    /// and a search there. Not part of the observed store's content, limit or markers.
+    Other(String),
 }
 
 impl Op {
@@ -38,6 +41,7 @@ impl Op {
             Op::Limit(n) => format!("limit({})", n),
             Op::Markers(a, b) => format!("markers({:?},{:?})", a, b),
             Op::Search(q) => format!("search({:?})", q),
+            Op::Other(q) => format!("on another store of this thread: add({:?},1) search({:?})", q, q),
         }
     }
 }
@@ -61,7 +65,22 @@ fn run_history(cx: &mut Cx, lang: &'static str, ops: &[Op], sample: bool) -> boo
     let mut last_mut = "";
     let mut mutated_since_last_search = false;
     let mut last_query: Option<String> = None;
+    let mut other: Option<St> = None;
     for op in ops {
+        if let Op::Other(q) = op {
+            shown.push(op.show());
+            cx.ctx(format!("C10 lang={} history={:?}", lang, shown));
+            let o = other.get_or_insert_with(|| {
+                let olang = LANGS[(hstr(q) % NL) as usize];
+                St::build(olang, &[(900, "metal detector".to_string(), 3), (901, "yellow mailbox wi-fi".to_string(), 1), (902, "ёлка straße".to_string(), 2)], 3, ("{", "}"))
+            });
+            let id = 1000 + o.store.records.len();
+            o.add(&(id, q.clone(), 1));
+            let _ = o.search(q);
+            let _ = o.search("");
+            cx.count("operations on another store of the same thread inside a history");
+            continue;
+        }
         if !matches!(op, Op::Search(_)) {
             mutated_since_last_search = true;
         }
@@ -102,6 +121,7 @@ fn run_history(cx: &mut Cx, lang: &'static str, ops: &[Op], sample: bool) -> boo
                 }
                 last_mut = "markers";
             }
+            Op::Other(_) => {}
             Op::Search(q) => {
                 let got = st.search(q);
                 let fresh = St::build(m.lang, &m.recs, m.limit, m.markers);
@@ -726,7 +746,7 @@ impl Prop for History {
     fn floors(&self) -> Vec<(&'static str, u64, u64)> {
         match self.0 {
             Which::NoCrash => vec![("searches", 20000, 200000), ("searches with hits", 5000, 50000), ("joined-record hits (two spans from a one-word query)", 50, 500), ("non-ASCII queries", 2000, 20000), ("limit 0", 200, 2000), ("limit 65536", 200, 2000), ("histories with boundary-value record ids", 2000, 20000), ("long-text searches", 500, 5000), ("long-text searches with a query over 255 characters", 100, 1000), ("corpus-store searches", 300, 3000), ("long-text cases with a giant word or a 1000+ word title", 20, 200), ("soak searches on one store", 600000, 2500000), ("most searches on one store max ", 66000, 66000), ("soak stores with more than 2^16 records", 2, 8)],
-            Which::NoStale => vec![("search after add following an earlier search", 2000, 20000), ("search after clear following an earlier search", 500, 5000), ("search after limit following an earlier search", 500, 5000), ("empty-query search after a mutation following an earlier search", 1000, 10000), ("exhaustive histories", 20000, 200000), ("histories on a crowded store", 2000, 20000), ("histories that clear and refill a crowded store", 2000, 20000), ("histories growing a store past 64/128/256/512 records with searches in between", 200, 5000), ("histories growing a store past 1024 records with searches in between", 60, 1500), ("soak searches on one store", 1000000, 4000000), ("search repeating the previous query after a mutation", 2000, 20000)],
+            Which::NoStale => vec![("search after add following an earlier search", 2000, 20000), ("search after clear following an earlier search", 500, 5000), ("search after limit following an earlier search", 500, 5000), ("empty-query search after a mutation following an earlier search", 1000, 10000), ("exhaustive histories", 20000, 200000), ("histories on a crowded store", 2000, 20000), ("histories that clear and refill a crowded store", 2000, 20000), ("histories growing a store past 64/128/256/512 records with searches in between", 200, 5000), ("histories growing a store past 1024 records with searches in between", 60, 1500), ("soak searches on one store", 1000000, 4000000), ("search repeating the previous query after a mutation", 2000, 20000), ("operations on another store of the same thread inside a history", 3000, 30000)],
             Which::Registry => vec![("observations", 20000, 200000), ("observations with >= 2 live ids holding results", 2000, 20000), ("destroy", 300, 3000), ("searches", 3000, 30000), ("histories over 4-20 store ids", 1000, 10000), ("bursts of 45-120 records", 300, 3000)],
         }
     }
@@ -743,6 +763,7 @@ impl Prop for History {
                 let n = if cx.tier == Tier::Miri { cx.rng.range(4, 7) } else { cx.rng.range(3, 14) };
                 let mut last_q = None;
                 let mut ops: Vec<Op> = vec![];
+                let interleave = cx.rng.chance(1, 4);
                 if cx.tier != Tier::Miri && cx.rng.chance(1, 4) {
                     // a crowded store first: more records share a gram than the candidate cap of a small limit
                     let words = ["metal", "mettle", "medal", "mailbox", "me", "meter"];
@@ -792,6 +813,15 @@ impl Prop for History {
                         cx.count("histories that clear and refill a crowded store");
                     }
                     if k < n {
+                        if interleave && cx.rng.chance(1, 3) {
+                            let q = match cx.rng.below(4) {
+                                0 => gen::rand_word(&mut cx.rng, &gen::lower_alphabet(lang), 25, 90),
+                                1 => last_q.clone().unwrap_or_else(|| "metal".to_string()),
+                                2 => gen::any_word(&mut cx.rng, lang),
+                                _ => format!("{} {}", cx.rng.pick(&["metal", "mailbox", "yellow", "wi-fi"]), gen::any_word(&mut cx.rng, lang)),
+                            };
+                            ops.push(Op::Other(q));
+                        }
                         ops.push(random_op(&mut cx.rng, lang, allow_clear, &mut last_q));
                     }
                 }
